@@ -253,6 +253,7 @@ func runC14(c *Ctx) {
 	ruleWaiterSendsUnderLock(c, "R14.9")
 	ruleOneShotCallbacks(c, "R14.10")
 	ruleInterceptorsNilSafe(c, "R14.11")
+	ruleParkedChannelsAreBuffered(c, "R14.12")
 }
 
 // R14.1 -------------------------------------------------------------------------------------------
